@@ -73,6 +73,9 @@ pub struct WebSocketFramed<T, C, E, D> {
     buffer: Option<BytesMut>,
     /// the buffer holds bytes the decoder has not looked at since it last produced an item
     readable: bool,
+    /// the decoder has failed: like `FramedRead`, the stream ends there instead of handing later bytes to a decoder
+    /// whose state (nonce counter, expected frame) no longer matches the peer's
+    errored: bool,
     close_queued: bool,
 }
 
@@ -84,7 +87,7 @@ where
     C: Encoder<E, Error = anyhow::Error> + Decoder<Item = D, Error = anyhow::Error> + Unpin,
 {
     pub fn new(stream: WebSocketStream<T>, codec: C) -> Self {
-        Self { stream, codec, encode_item: PhantomData, decode_item: PhantomData, buffer: None, readable: false, close_queued: false }
+        Self { stream, codec, encode_item: PhantomData, decode_item: PhantomData, buffer: None, readable: false, errored: false, close_queued: false }
     }
 }
 
@@ -97,6 +100,9 @@ where
     type Item = Result<D>;
 
     fn poll_next(mut self: Pin<&mut Self>, cx: &mut Context<'_>) -> Poll<Option<Self::Item>> {
+        if self.errored {
+            return Poll::Ready(None);
+        }
         loop {
             // one message may carry several frames: whatever is left in the buffer is decoded before waiting for the next message
             if self.readable {
@@ -110,6 +116,7 @@ where
                         Ok(None) => self.readable = false,
                         Err(e) => {
                             self.readable = false;
+                            self.errored = true;
                             return Poll::Ready(Some(Err(e)));
                         }
                     }
